@@ -137,9 +137,9 @@ def pairwise(run, family, obs, sig_extra, case, classify=None, guard_ok=True):
 def gen_daily_case(rng, k):
     kind = "daily" if rng.random() < 0.55 else "billing"
     stream = "class" if (rng.random() < 0.3 and kind == "daily") else "injected"
-    n = rng.choice([1, 2, 3, 7, 20, 45, 90, 150] if stream == "injected" else [20, 45, 90, 150])
-    if k % 17 == 0:
-        n = 400
+    n = rng.choice([1, 2, 3, 7, 20, 45, 90] if stream == "injected" else [20, 45, 90])
+    if k % 23 == 0:
+        n = 250
     start = (pd.Timestamp("2019-01-01") + pd.Timedelta(days=rng.randrange(0, 2000))).strftime("%Y-%m-%d")
     return {"stream": "daily", "model": kind, "path": stream, "tz": rng.choice(sd.ZONES[:5]), "start": start, "n": n,
             "p_tnan": rng.choice([0.0, 0.0, 0.05, 0.3]), "p_tinf": rng.choice([0.0, 0.0, 0.03]) if stream == "injected" else 0.0,
@@ -433,7 +433,7 @@ def detect_state_policy(kit):
 
 
 def gen_hourly_case(rng, kit, k):
-    ndays = rng.choice([4, 9, 20, 35, 60])
+    ndays = rng.choice([4, 9, 20, 35])
     if k % 2 == 0 and kit.tz in DST_DATES:          # aim at a clock change
         md = rng.choice(DST_DATES[kit.tz])
         start = (pd.Timestamp("2022-" + md) - pd.Timedelta(days=rng.randrange(1, max(2, ndays - 1)))).strftime("%Y-%m-%d")
@@ -624,10 +624,12 @@ def caltrack_stream(run, seed, nsets):
     rng = random.Random(seed)
     tz = rng.choice(HZONES[:4])
     base = fl.hourly_frame(rng, tz=tz, start="2021-01-01", ndays=365)
-    model = HourlyCaltrackModel().fit(fl.caltrack_baseline(base))
+    with warnings.catch_warnings(), contextlib.redirect_stderr(io.StringIO()):
+        warnings.simplefilter("ignore")
+        model = HourlyCaltrackModel().fit(fl.caltrack_baseline(base))
     run.log("caltrack model fitted (%s)" % tz)
     for k in range(nsets):
-        ndays = rng.choice([3, 10, 31, 70])
+        ndays = rng.choice([3, 10, 31, 45])
         if k % 2 == 0:
             md = rng.choice(DST_DATES[tz])
             start = (pd.Timestamp("2022-" + md) - pd.Timedelta(days=rng.randrange(1, max(2, ndays - 1)))).strftime("%Y-%m-%d")
@@ -671,11 +673,11 @@ def main():
         "paired runs: every reporting set is predicted with its usage column {unchanged, scaled, shuffled, 30 % NaN, all NaN, "
         "dropped} (+ hourly: gaps written into the data object: 30 % / one cell / one local day) and all pairs are compared "
         "bit-wise on the timestamps predicted in both. daily/billing: synthetic documents (1-6 sub-models, dyadic coefficients) x "
-        "frames of 1-400 local days, 5 zones, NaN/inf temperatures, injected or through the data class, each variant also "
+        "frames of 1-250 local days, 5 zones, NaN/inf temperatures, injected or through the data class, each variant also "
         "compared row by row with Model/Rows.v in Coq; one really fitted daily and billing model. hourly: really fitted "
-        "non-solar and solar models reloaded from JSON per run; reporting sets of 4-60 days, half of them placed on a clock "
+        "non-solar and solar models reloaded from JSON per run; reporting sets of 4-35 days, half of them placed on a clock "
         "change; model object fresh / reused after another set / stored table truncated; outcome class and equality pattern "
-        "of every variant compared with Model/HourlyFlow.v in Coq. caltrack: one fitted model, sets of 3-70 days. "
+        "of every variant compared with Model/HourlyFlow.v in Coq. caltrack: one fitted model, sets of 3-45 days. "
         "distinct = (case hash, variant); non-trivial = at least one finite temperature")
     run.assumptions += [
         "the usage column is altered before the public data class sees it; the data classes themselves (interpolation of hourly "
@@ -757,7 +759,7 @@ def main():
     hourly_stream(run, kits, hc, pz, state_policy)
     table_after_stream(run, kits[0], state_policy, run.n(6, 60))
     run.log("hourly done")
-    daily_stream(run, [gen_daily_case(run.rng, k) for k in range(run.n(200, 6000))])
+    daily_stream(run, [gen_daily_case(run.rng, k) for k in range(run.n(140, 6000))])
     run.log("daily/billing synthetic done")
     fit_stream(run, [("daily", seeds[2]), ("billing", seeds[3])] if run.quick() else
                [(k, run.rng.randrange(2**31)) for k in ["daily", "billing"] * 8])
